@@ -422,7 +422,7 @@ METHOD_KW = {
     'Direct': {},
     'Newton': {},
     'ReuseNewton': {'require': [.25, .75, .9]},
-    'LinesearchNewton': {'failrelax': [1e-3, 1e-4], 'relax0': [.5, .25], 'strategy': [['strategy', 'NormBased', []], ['strategy', 'NormBased', [['minscale', ['float', .02]]]], ['strategy', 'MedianBased', []], ['strategy', 'MedianBased', [['quantile', ['float', .25]]]]]},
+    'LinesearchNewton': {'failrelax': [1e-3, 1e-4], 'relax0': [.5, .25], 'strategy': [['strategy', 'NormBased', [['minscale', ['float', .02]]]], ['strategy', 'NormBased', [['acceptscale', ['float', .5]]]], ['strategy', 'MedianBased', []], ['strategy', 'MedianBased', [['quantile', ['float', .25]]]]]},   # never the default (NormBased()): an explicit default is the same value as an omitted argument
     'Minimize': {'rampup': [.25, .75], 'rampdown': [-.5, -2.], 'failrelax': [-5., -20.]},
     'Pseudotime': {'inertia': [['inertia', 2], ['inertia', 3]], 'timestep': [1., .5, 2.]},
 }
